@@ -103,13 +103,13 @@ def run_case(case, ctx):
             r = o[ci]
             err = r["base"].get("__error__")
             # (b) listing order, (c) presence of other streams, (g) prior use of the stream
-            for variant in ("perm", "hist", "reuse"):
+            for variant in ("perm", "hist", "reuse", "used"):
                 ctx.count("in_process_metamorphic_comparisons")
                 if err is None and r[variant].get("__error__") is None:
                     for n in names:
                         if r[variant][n] != r["base"][n]:
                             ctx.viol("depends-on-" + {"perm": "listing-order", "hist": "prior-stream-use",
-                                                      "reuse": "what-the-updater-served-before"}[variant],
+                                                      "reuse": "what-the-updater-served-before", "used": "prior-stream-use"}[variant],
                                      {**info, "stream": n, "base": r["base"][n], variant: r[variant][n], "hashseed": h})
                             return
             if err is None:
